@@ -1,7 +1,18 @@
 import Oracle.Proto
-/-! Oracle suites of property C17 (registered in Oracle/Main.lean through `suites`). -/
+import Oracle.CollModel
+import Oracle.CollSpec
+import Oracle.CollJudge
+/-! Oracle suites of property C17. -/
 namespace Oracle.C17
 
-def suites : List (String × Suite) := []
+def suites : List (String × Suite) := [
+  ("c17-edit", Oracle.Coll.model),
+  ("c17-edit-spec", Oracle.Coll.spec),
+  ("c17-query", Oracle.Coll.model),
+  ("c17-query-spec", Oracle.Coll.spec),
+  ("c17-order-judge", Oracle.Coll.judge),
+  ("c17-random-judge", Oracle.Coll.judge),
+  ("c17-topo-judge", Oracle.Coll.judge)
+]
 
 end Oracle.C17
